@@ -2,7 +2,8 @@
 
 Exhaustive enumeration (engine E1): (a) every terrain over a small height alphabet on small grids x every
 observer cell (x a product of configurations on the smallest grids); (b) deviation-bounded larger grids: flat
-base, every placement of <= k raised / lowered cells x every observer cell.  Every call of the public
+base, every placement of <= k raised / lowered cells x every observer cell.  Every non-square shape family occurs
+tall (H > W) as well as wide: rows and columns play different roles in the sweep.  Every call of the public
 `xrspatial.viewshed` is compared cell by cell with the O(n^2) reference evaluation in oracles/viewshed.py."""
 from functools import lru_cache
 from math import comb
@@ -79,8 +80,12 @@ SPACES = {
         ("full_3x3_012_A", (3, 3), ("full", (0, 1, 2)), [A]),
         ("full_3x3_02_defaults", (3, 3), ("full", (0, 2)), [DEFAULTS]),
         ("full_2x3_02_product96", (2, 3), ("full", (0, 2)), PRODUCT),
-        ("full_2x4_02_A", (2, 4), ("full", (0, 2)), [A]),
+        ("full_3x2_02_product96", (3, 2), ("full", (0, 2)), PRODUCT),
+        ("full_4x2_012_A", (4, 2), ("full", (0, 1, 2)), [A]),
+        ("full_4x2_02_defaults_B", (4, 2), ("full", (0, 2)), [DEFAULTS, B]),
+        ("full_2x4_02_defaults_AB", (2, 4), ("full", (0, 2)), [DEFAULTS, A, B]),
         ("full_3x4_02_A", (3, 4), ("full", (0, 2)), [A]),
+        ("full_4x3_02_A", (4, 3), ("full", (0, 2)), [A]),
         ("full_4x4_01_A", (4, 4), ("full", (0, 1)), [A]),
         ("full_3x3_02_product96", (3, 3), ("full", (0, 2)), PRODUCT),
         ("dev_5x5_k2_ABC", (5, 5), ("dev", (-2, 1, 3), 2), [A, B, C]),
@@ -88,6 +93,8 @@ SPACES = {
         ("dev_7x7_k2_ABC", (7, 7), ("dev", (-2, 1, 3), 2), [A, B, C]),
         ("dev_5x7_k2_C", (5, 7), ("dev", (-2, 3), 2), [C]),
         ("dev_7x5_k2_B", (7, 5), ("dev", (-2, 3), 2), [B]),
+        ("dev_6x4_k2_B", (6, 4), ("dev", (-2, 3), 2), [B]),
+        ("dev_4x6_k2_C", (4, 6), ("dev", (-2, 3), 2), [C]),
         ("dev_8x8_k2_B", (8, 8), ("dev", (-2, 1, 3), 2), [B]),
         ("dev_9x9_k2_A", (9, 9), ("dev", (-2, 3), 2), [A]),
         ("dev_5x5_k3_C", (5, 5), ("dev", (-2, 3), 3), [C]),
